@@ -91,6 +91,8 @@ def programs(draw, kinds=("mutex",), max_actors=5, max_ops=10, max_mutex=3, max_
                     continue     # locking a plain mutex twice is undefined behaviour (outside the domain)
                 ops.append(["lock", m])
                 held[m] = held.get(m, 0) + 1
+                if "tick" in kinds and draw(st.booleans()):
+                    ops.append(["tick", m])     # inside the critical section of mutex m: the order of the sections becomes observable
             elif k == "unlock":
                 hs = [m for m, c in held.items() if c > 0]
                 if not hs:
@@ -120,7 +122,10 @@ def programs(draw, kinds=("mutex",), max_actors=5, max_ops=10, max_mutex=3, max_
             elif k == "owner":
                 ops.append(["owner", draw(st.integers(0, len(rec) - 1))])
             elif k == "acquire":
-                ops.append(["acquire", draw(st.integers(0, len(sems) - 1))])
+                si = draw(st.integers(0, len(sems) - 1))
+                ops.append(["acquire", si])
+                if "tick" in kinds and not mc and draw(st.booleans()):
+                    ops.append(["tick", 100 + si])     # order of the grants (not usable under the model checker: unprotected memory)
             elif k == "acquire_timeout":
                 t = draw(st.one_of(QUARTERS, QUARTERS, QUARTERS, st.just(0.0), FINE))
                 ops.append(["acquire_timeout", draw(st.integers(0, len(sems) - 1)), t])
@@ -131,17 +136,23 @@ def programs(draw, kinds=("mutex",), max_actors=5, max_ops=10, max_mutex=3, max_
             elif k in ("cv_wait", "cv_wait_for"):
                 c = draw(st.integers(0, len(conds) - 1))
                 m = conds[c]
+                explicit = False
+                if "cond-any-mutex" in kinds and draw(st.booleans()):
+                    # S4U lets every waiter of a condition variable bring its own mutex
+                    plain_m = [i for i, r in enumerate(rec) if not r]
+                    m = draw(st.sampled_from(plain_m))
+                    explicit = True
                 if held.get(m, 0) > 1:
                     continue
                 own = held.get(m, 0) == 1
                 if not own:
                     ops.append(["lock", m])
                 if k == "cv_wait":
-                    ops.append(["cv_wait", c])
+                    ops.append(["cv_wait", c] + ([m] if explicit else []))
                 elif mc:
-                    ops.append(["cv_wait_for", c, draw(st.integers(1, 8).map(lambda k: k / 4))])
+                    ops.append(["cv_wait_for", c, draw(st.integers(1, 8).map(lambda k: k / 4))] + ([m] if explicit else []))
                 else:
-                    ops.append(["cv_wait_for", c, draw(st.one_of(QUARTERS, QUARTERS, FINE))])
+                    ops.append(["cv_wait_for", c, draw(st.one_of(QUARTERS, QUARTERS, FINE))] + ([m] if explicit else []))
                 if not mc:
                     ops.append(["owner", m])
                 if not own:
